@@ -40,6 +40,19 @@ CLAIMED = {
             'is shared code and not compared.',
             'static analysis: scanner-automaton extraction from source + exhaustive product-state enumeration (no code is run)',
             'flex longest-match/default-rule semantics as documented; framing state checked to be declared at function scope (chunk independence)'),
+    'C10': ('other',
+            'Static, all-paths typestate of the proof-chain protocol (beginChain / addResolutionStep / endChain) through every function of the four SAT-engine '
+            'classes with interprocedural summaries under "proof logging on" (release builds have no runtime check: the asserts are compiled out); every clause '
+            'allocated in the engines reaches a proof registration on every logging path; premise reference counting agrees between the chain-building methods; '
+            'a finished derivation cannot be silently dropped for an existing key; clause kinds classified exhaustively. Decides these clauses (necessary for '
+            'closed, current proofs), not that each step is a correct resolution.',
+            'static analysis: interprocedural typestate + MUST-CALL walk over the structured mini-AST (LibTooling facts)', ''),
+    'C28': ('other',
+            'Static: who-may-allocate (only the term factory reaches PtermAllocator::alloc / PtStore::newTerm), every allocation in the miss branch of a lookup in '
+            'and followed by an insert into the same hash-consing table under the same key, argument sorting before key construction for order-insensitive '
+            'constructors, monotone id append, sign normalisation of arithmetic equalities applied to the normalised polynomial. Decides these necessary clauses; '
+            'not that every simplifying constructor normalises argument order.',
+            'static analysis: who-may-call + structural lookup/insert pairing rules over the type-checked AST (LibTooling facts)', ''),
 }
 
 NOT_APPLICABLE = {
